@@ -320,7 +320,7 @@ async def _assert_preconditions_async(
                 check = await contract.condition(**condition_kwargs)
             else:
                 check_or_coroutine = contract.condition(**condition_kwargs)
-                if inspect.iscoroutine(check_or_coroutine):
+                if inspect.isawaitable(check_or_coroutine):
                     check = await check_or_coroutine
                 else:
                     check = check_or_coroutine
@@ -476,7 +476,7 @@ async def _assert_postconditions_async(
             check = await contract.condition(**condition_kwargs)
         else:
             check_or_coroutine = contract.condition(**condition_kwargs)
-            if inspect.iscoroutine(check_or_coroutine):
+            if inspect.isawaitable(check_or_coroutine):
                 check = await check_or_coroutine
             else:
                 check = check_or_coroutine
